@@ -38,6 +38,7 @@ func Gen(cfgs []string) func(t *rapid.T) *Case {
 			// batch >= log length: smaller batches cut chunks short (known finding, probed separately)
 			c.Batch = rapid.SampledFrom([]int{0, 25, 26, 100}).Draw(t, "batch")
 		}
+		c.DupStore = rapid.IntRange(0, 3).Draw(t, "dupStore") == 0
 		c.Fill = rapid.SampledFrom([]string{"", "", "bus", "mixed"}).Draw(t, "fill")
 		c.Fault = rapid.SampledFrom(faultsFor(c.Config)).Draw(t, "fault")
 		if c.Fault == "badrow" {
